@@ -79,7 +79,8 @@ class Check:
         if prev:  # one VIOLATION line per role key; further instances are kept in the same replay file's count
             prev[0]["instances"] = prev[0].get("instances", 1) + 1
             return True
-        d = os.path.join(VERIF, "replay", self.pid)
+        import paths
+        d = os.path.join(paths.REPLAY, self.pid)
         os.makedirs(d, exist_ok=True)
         path = os.path.join(d, "%s-%d.json" % (re.sub(r"[^A-Za-z0-9_.-]", "_", key)[:80], len(self.violations)))
         json.dump(dict(property=self.pid, key=key, what=what, replay=replay), open(path, "w"), indent=1, default=str)
@@ -109,7 +110,8 @@ class Check:
         cov["notes"] = self.notes
         ev = dict(property_id=self.pid, tier=self.tier, seed=seed(), level=self.level, coverage=cov,
                   assumptions=list(assumptions) + self.assumptions, wall_s=round(wall, 2), violations=len(self.violations))
-        os.makedirs(os.path.join(VERIF, "evidence"), exist_ok=True)
+        import paths
+        os.makedirs(paths.EVIDENCE, exist_ok=True)
         ev = json.loads(json.dumps(ev, default=str))
         try:
             import jsonschema
@@ -121,7 +123,7 @@ class Check:
         except Exception as ex:  # an evidence file that does not validate is no evidence: make it loud
             self.inconclusive("evidence does not validate against the schema: %s" % str(ex).split("\n")[0])
             ev["coverage"]["inconclusive"] = self.inconcl
-        json.dump(ev, open(os.path.join(VERIF, "evidence", self.pid + ".json"), "w"), indent=1, default=str)
+        json.dump(ev, open(os.path.join(paths.EVIDENCE, self.pid + ".json"), "w"), indent=1, default=str)
         status = 1 if self.violations else (2 if self.inconcl else 0)
         print("RESULT property=%s tier=%s exit=%d queries=%d (unsat %d, sat %d, undecided %d) known=%d violations=%d wall=%.1fs" % (
             self.pid, self.tier, status, q["total"], q["unsat"], q["sat"], q["unknown"] + q["error"], len(self.known_hit), len(self.violations), wall), flush=True)
